@@ -57,7 +57,7 @@ func TestMain(m *testing.M) {
 		"handle-encrypted", "handle-public", "handle-nosecrets", "derived-handle", "old-output-reaccepted", "subtle-built",
 		"odd-encoding", "odd-encoding-accepted", "odd-encoding-refused", "stream-aad-flipped-before-first-write", "stream-chunk-flipped-after-write",
 		"stream-aad-flipped-before-first-read", "stream-readbuf-flipped-after-read", "read-short-buffer-big-spare", "read-zero-len-buffer", "write-zero-len-chunk",
-		"replay-produce-after-overwrite", "replay-accept-after-overwrite", "replay-reference-checked", "prehash-primitives", "second-result-forced", "spare-larger-than-the-call",
+		"replay-produce-after-overwrite", "replay-accept-after-overwrite", "replay-reference-checked", "prehash-primitives", "second-result-forced", "spare-larger-than-the-call", "template-checked", "helper-checked", "kek-returned-buffer",
 		"stream-device-fault-fired", "stream-source-fault-fired", "stream-write-continued-after-io-error", "stream-read-continued-after-io-error")
 	if core.Thorough() {
 		core.DeclareProbes("pooled-key")
@@ -233,6 +233,8 @@ func drawPlan(t *rapid.T) *plan {
 		p.ent = stubs[rapid.IntRange(0, len(stubs)-1).Draw(t, "stub")]
 	case k >= 32:
 		p.ent = subs[rapid.IntRange(0, len(subs)-1).Draw(t, "subtle")]
+	case k == 30:
+		p.ent = entry{name: "misc/templates-and-helpers", class: "misc", keyType: "misc", variant: "NONE"}
 	case k == 31 && len(slowList) > 0:
 		p.ent = slowList[rapid.IntRange(0, len(slowList)-1).Draw(t, "slowEntry")]
 		slow = true
@@ -2019,6 +2021,10 @@ func (w *world) execute() {
 		}
 	}()
 	w.mark()
+	if w.pl.ent.class == "misc" {
+		w.runMisc() // key templates and helper functions: no key history
+		return
+	}
 	w.newKey(true)
 	w.sweep(true)
 	w.endStep("newkey")
